@@ -467,6 +467,8 @@ def run(ctx):
         for stream, m in by_stream.items():
             ctx.violation(f"corr:{stream}", {"line": m[1], "real": m[2], "model": m[3]}, found=False)
 
+    import extra_oracles
+    extra_oracles.c17_ill_conditioned(ctx, orthonormalize)
     ctx.notes["rule"] = (
         "exhaustive: all permutations of n<=5 (quick) / n<=6 (thorough) through identity/is_perm/inverse/from_int/to_int/to_cycles/sign/"
         "natural_representation/group; all non-permutation tuples over range(n+2) of length <=3 (4) through the guarded functions incl. "
